@@ -74,6 +74,27 @@ func (i *insertOnUpdateExecutor) ExecContext(ctx context.Context, f exec.Callbac
 		return nil, err
 	}
 
+	// a multi-row statement may update some rows and insert others: the rows
+	// that existed before are undone by an update item, the new ones by an
+	// insert item (an update item alone would leave the inserted rows behind)
+	insertedAfter := newRowsOf(beforeImage, afterImage)
+	if len(beforeImage.Rows) > 0 && len(insertedAfter.Rows) > 0 {
+		updatedAfter := *afterImage
+		updatedAfter.Rows = existingRowsOf(beforeImage, afterImage)
+		updatedAfter.SQLType = types.SQLTypeUpdate
+		beforeImage.SQLType = types.SQLTypeUpdate
+		i.execContext.TxCtx.RoundImages.AppendBeofreImage(beforeImage)
+		i.execContext.TxCtx.RoundImages.AppendAfterImage(&updatedAfter)
+
+		emptyBefore := *beforeImage
+		emptyBefore.Rows = nil
+		emptyBefore.SQLType = types.SQLTypeInsert
+		insertedAfter.SQLType = types.SQLTypeInsert
+		i.execContext.TxCtx.RoundImages.AppendBeofreImage(&emptyBefore)
+		i.execContext.TxCtx.RoundImages.AppendAfterImage(insertedAfter)
+		return res, nil
+	}
+
 	if len(beforeImage.Rows) > 0 {
 		beforeImage.SQLType = types.SQLTypeUpdate
 		afterImage.SQLType = types.SQLTypeUpdate
@@ -85,6 +106,51 @@ func (i *insertOnUpdateExecutor) ExecContext(ctx context.Context, f exec.Callbac
 	i.execContext.TxCtx.RoundImages.AppendBeofreImage(beforeImage)
 	i.execContext.TxCtx.RoundImages.AppendAfterImage(afterImage)
 	return res, nil
+}
+
+// imageRowKey is the primary key of an image row as text
+func imageRowKey(row types.RowImage) string {
+	var sb strings.Builder
+	for _, col := range row.Columns {
+		if col.KeyType == types.IndexTypePrimaryKey {
+			sb.WriteString(strings.ToLower(col.ColumnName))
+			sb.WriteString("=")
+			sb.WriteString(fmt.Sprintf("%v", col.GetActualValue()))
+			sb.WriteString(";")
+		}
+	}
+	return sb.String()
+}
+
+// newRowsOf returns the rows of after whose primary key is not in before
+func newRowsOf(before, after *types.RecordImage) *types.RecordImage {
+	existing := make(map[string]struct{}, len(before.Rows))
+	for _, row := range before.Rows {
+		existing[imageRowKey(row)] = struct{}{}
+	}
+	res := *after
+	res.Rows = nil
+	for _, row := range after.Rows {
+		if _, ok := existing[imageRowKey(row)]; !ok {
+			res.Rows = append(res.Rows, row)
+		}
+	}
+	return &res
+}
+
+// existingRowsOf returns the rows of after whose primary key is in before
+func existingRowsOf(before, after *types.RecordImage) []types.RowImage {
+	existing := make(map[string]struct{}, len(before.Rows))
+	for _, row := range before.Rows {
+		existing[imageRowKey(row)] = struct{}{}
+	}
+	var rows []types.RowImage
+	for _, row := range after.Rows {
+		if _, ok := existing[imageRowKey(row)]; ok {
+			rows = append(rows, row)
+		}
+	}
+	return rows
 }
 
 // beforeImage build before image
